@@ -494,6 +494,9 @@ class DirectoryRecord:
 
         self.dr_len += (self.dr_len % 2)
 
+        if self.dr_len > 255:
+            raise pycdlibexception.PyCdlibInvalidInput('Name is too long to fit in a directory record')
+
         if self.is_root:
             self._printable_name = '/'.encode(vd.encoding)
         elif self.file_ident == b'\x00':
